@@ -836,3 +836,307 @@ def gen_jdoc(rng):
     if rng.random() < 0.7:
         doc["encoder"] = rng.choice(["hugr-rs v0.15.0", None])
     return T.shuffle_keys(rng, doc)
+
+
+# ----------------------------------------------------------------------------- foreign serial terms written by hand
+# (seeded round 3)  Every generator above that makes a "foreign" operation or document starts from an object the
+# library itself constructed and encoded: whatever a constructor or an encoder loses is lost before the case exists.
+# The writers below go from random choices straight to JSON -- no API object, constructor or encoder is involved --
+# and they make *coincidences* likely (rows / function types shared between the attributes of one operation: an
+# instantiation equal to the body of the polymorphic signature, equal input and output rows, equal variants ...),
+# since a shortcut taken "when nothing changes" needs exactly such an input to show.
+
+import copy as _copy
+
+JOP_KINDS = ["Module", "FuncDefn", "FuncDecl", "Const", "DataflowBlock", "ExitBlock", "Input", "Output", "Call", "CallIndirect",
+             "LoadConstant", "LoadFunction", "DFG", "Conditional", "Case", "TailLoop", "CFG", "Extension", "Tag", "AliasDecl",
+             "AliasDefn"]
+
+_G = lambda i, o, r=(): {"t": "G", "input": i, "output": o, "runtime_reqs": list(r)}
+_Q, _I, _B = {"t": "Q"}, {"t": "I"}, {"t": "Sum", "s": "Unit", "size": 2}
+
+# embedded documents of function constants, written the way this library writes them (what loading and re-saving does
+# to a whole document is the business of the document cases)
+EMBEDDED = [
+    {"version": "live", "nodes": [{"parent": 0, "op": "DFG", "signature": _G([_Q], [_Q])},
+                                  {"parent": 0, "op": "Input", "types": [_Q]}, {"parent": 0, "op": "Output", "types": [_Q]}],
+     "edges": [[[1, 0], [2, 0]]], "metadata": [None, None, None], "encoder": None},
+    # a dataflow-rooted body holding a nested polymorphic function whose parameter does not occur in its signature,
+    # and a call of it (instantiation == body, type arguments not empty)
+    {"version": "live", "nodes": [{"parent": 0, "op": "DFG", "signature": _G([_I], [])},
+                                  {"parent": 0, "op": "Input", "types": [_I]}, {"parent": 0, "op": "Output", "types": []},
+                                  {"parent": 0, "op": "FuncDefn", "name": "phantom",
+                                   "signature": {"params": [{"tp": "BoundedNat", "bound": None}], "body": _G([_I], [])}},
+                                  {"parent": 3, "op": "Input", "types": [_I]}, {"parent": 3, "op": "Output", "types": []},
+                                  {"parent": 0, "op": "Call", "func_sig": {"params": [{"tp": "BoundedNat", "bound": None}],
+                                                                           "body": _G([_I], [])},
+                                   "type_args": [{"tya": "BoundedNat", "n": 3}], "instantiation": _G([_I], [])}],
+     "edges": [[[1, 0], [6, 0]], [[3, 0], [6, 1]]], "metadata": [None, None, None, None, None, None, {"k": [1, None]}],
+     "encoder": None},
+]
+
+
+class _Pool:
+    """Rows handed out for the attributes of one operation: a fresh row or, half of the time, one handed out before."""
+
+    def __init__(self, rng, d):
+        self.rng, self.d, self.rows = rng, d, [[]]
+
+    def row(self):
+        if self.rng.random() < 0.5:
+            return _copy.deepcopy(self.rng.choice(self.rows))
+        r = T.gen_jrow(self.rng, self.d)
+        self.rows.append(r)
+        return _copy.deepcopy(r)
+
+    def func(self, omit=True):
+        g = {"t": "G", "input": self.row(), "output": self.row()}
+        reqs = T.gen_reqs(self.rng)
+        if reqs or not omit or self.rng.random() < 0.5:
+            g["runtime_reqs"] = reqs                       # else omitted: defaulted field
+        return T.shuffle_keys(self.rng, g)
+
+
+def _jarg_for(rng, p, d=1):
+    """A type argument fitting the parameter p (JSON), sometimes a variable declared with that parameter."""
+    if rng.random() < 0.15:
+        return T.shuffle_keys(rng, {"tya": "Variable", "idx": rng.choice([0, 1, 3]), "cached_decl": _copy.deepcopy(p)})
+    k = p["tp"]
+    if k == "Type":
+        return T.shuffle_keys(rng, {"tya": "Type", "ty": T.gen_jty(rng, d)})
+    if k == "BoundedNat":
+        return {"tya": "BoundedNat", "n": rng.choice([0, 1, 2]) if p["bound"] is not None else rng.choice([0, 7, 2 ** 35])}
+    if k == "String":
+        return {"tya": "String", "arg": rng.choice(T.NAMES)}
+    if k == "Extensions":
+        return {"tya": "Extensions", "es": T.gen_reqs(rng)}
+    if k == "List":
+        return {"tya": "Sequence", "elems": [_jarg_for(rng, p["param"], d) for _ in range(rng.choice([0, 1, 2]))]}
+    return {"tya": "Sequence", "elems": [_jarg_for(rng, q, d) for q in p["params"]]}
+
+
+def gen_jval(rng, d=2):
+    """JSON of a serial constant value, written by hand."""
+    r = rng.random()
+    vals = lambda: [gen_jval(rng, d - 1) for _ in range(rng.choice([0, 1, 1, 2]))]
+    if d <= 0 or r < 0.35:
+        return T.shuffle_keys(rng, {"v": "Extension", "extensions": T.gen_reqs(rng), "typ": T.gen_jty(rng, 1),
+                                    "value": T.shuffle_keys(rng, {"c": rng.choice(T.NAMES + ["ConstF64"]),
+                                                                  "v": json.loads(rng.choice(JSONS + ["null", "[null]"]))})})
+    if r < 0.5:
+        return T.shuffle_keys(rng, {"v": "Tuple", "vs": vals()})
+    if r < 0.6:
+        n = rng.choice([1, 2, 3])
+        return T.shuffle_keys(rng, {"v": "Sum", "tag": rng.randrange(n), "typ": {"t": "Sum", "s": "Unit", "size": n}, "vs": []})
+    if r < 0.88:
+        rows = [T.gen_jrow(rng, 1) for _ in range(rng.choice([1, 2, 3]))]
+        if rng.random() < 0.4:
+            rows = [_copy.deepcopy(rows[0]) for _ in rows]          # all variants equal
+        tag = rng.randrange(len(rows))
+        vs = vals()
+        if rng.random() < 0.5:
+            rows[tag] = [_Q] * len(vs)
+        return T.shuffle_keys(rng, {"v": "Sum", "tag": tag, "typ": T.shuffle_keys(rng, {"t": "Sum", "s": "General", "rows": rows}),
+                                    "vs": vs})
+    return T.shuffle_keys(rng, {"v": "Function", "hugr": _copy.deepcopy(rng.choice(EMBEDDED))})
+
+
+def gen_jcall(rng, kind, pool=None, d=1):
+    """A Call / LoadFunction written by hand.  Shapes: monomorphic (canonical, or with an instantiation / type
+    arguments another writer left there); polymorphic with an instantiation that differs from the body; polymorphic
+    whose parameters do not occur in the body, so that the instantiation IS the body while the type arguments are
+    not empty ("phantom" parameters)."""
+    pool = pool or _Pool(rng, d)
+    body = pool.func(omit=False)
+    r = rng.random()
+    if r < 0.25:
+        params, targs = [], []
+        inst = _copy.deepcopy(body) if rng.random() < 0.8 else pool.func()
+        if rng.random() < 0.15:
+            targs = [T.gen_jarg(rng, 1)]
+    else:
+        params = [T.gen_jparam(rng, rng.choice([0, 1, 2])) for _ in range(rng.choice([1, 1, 2, 3]))]
+        targs = [_jarg_for(rng, p, d) for p in params]
+        inst = T.shuffle_keys(rng, _copy.deepcopy(body)) if r < 0.7 else pool.func()
+    return T.shuffle_keys(rng, {"parent": 0, "op": kind, "func_sig": T.shuffle_keys(rng, {"params": params, "body": body}),
+                                "type_args": targs, "instantiation": inst})
+
+
+def gen_jop_direct(rng, kind=None, d=1):
+    """JSON of one of the 21 serial operation kinds, written by hand (schema-valid; defaulted fields sometimes omitted,
+    keys permuted, fields this library never writes present)."""
+    k = kind or rng.choice(JOP_KINDS)
+    pool = _Pool(rng, d)
+    R = pool.row
+    opt = lambda j, key, v: j.update({key: v}) if (v or rng.random() < 0.5) else None     # a defaulted field
+    j = {"parent": rng.choice([0, 0, 3]), "op": k}
+    if k in ("FuncDefn", "FuncDecl"):
+        j["name"] = rng.choice(T.NAMES + ["main"])
+        j["signature"] = T.shuffle_keys(rng, {"params": [T.gen_jparam(rng, 2) for _ in range(rng.choice([0, 0, 1, 2, 3]))],
+                                              "body": pool.func(omit=False)})
+    elif k == "Const":
+        j["v"] = gen_jval(rng, 2)
+    elif k == "DataflowBlock":
+        opt(j, "inputs", R())
+        opt(j, "other_outputs", R())
+        j["sum_rows"] = [R() for _ in range(rng.choice([0, 1, 2, 3]))]
+        opt(j, "extension_delta", T.gen_reqs(rng))
+    elif k == "ExitBlock":
+        j["cfg_outputs"] = R()
+    elif k in ("Input", "Output"):
+        opt(j, "types", R())
+    elif k in ("Call", "LoadFunction"):
+        j = {**gen_jcall(rng, k, pool, d), "parent": j["parent"]}
+    elif k in ("CallIndirect", "DFG", "Case", "CFG"):
+        if rng.random() < 0.9:
+            j["signature"] = pool.func()
+    elif k == "LoadConstant":
+        j["datatype"] = T.gen_jty(rng, d + 1)
+    elif k == "Conditional":
+        opt(j, "other_inputs", R())
+        opt(j, "outputs", R())
+        opt(j, "sum_rows", [R() for _ in range(rng.choice([0, 1, 2, 3]))])
+        opt(j, "extension_delta", T.gen_reqs(rng))
+    elif k == "TailLoop":
+        opt(j, "just_inputs", R())
+        opt(j, "just_outputs", R())
+        opt(j, "rest", R())
+        opt(j, "extension_delta", T.gen_reqs(rng))
+    elif k == "Extension":
+        j["extension"] = rng.choice(T.NAMES)
+        j["name"] = rng.choice(T.NAMES + ["op"])
+        if rng.random() < 0.8:
+            j["signature"] = pool.func()
+        opt(j, "description", rng.choice(["", "", "does things", "é\n"]))
+        opt(j, "args", [T.gen_jarg(rng, d) for _ in range(rng.choice([0, 0, 1, 2]))])
+    elif k == "Tag":
+        j["variants"] = [R() for _ in range(rng.choice([1, 2, 2, 3]))]
+        j["tag"] = rng.randrange(len(j["variants"]))
+    elif k == "AliasDecl":
+        j["name"] = rng.choice(T.NAMES)
+        j["bound"] = T.gen_bound(rng)
+    elif k == "AliasDefn":
+        j["name"] = rng.choice(T.NAMES)
+        j["definition"] = T.gen_jty(rng, d + 1)
+    if rng.random() < 0.2:
+        j["input_extensions"] = None                         # written by older hugr-rs encoders; ignored by the schema
+    return T.shuffle_keys(rng, j)
+
+
+def gen_jdoc_direct(rng):
+    """A schema-valid document of hand-written operations: a module and 1..4 children, no edges."""
+    nodes = [T.shuffle_keys(rng, {"parent": 0, "op": "Module"})]
+    for _ in range(rng.choice([1, 2, 3, 4])):
+        nodes.append({**gen_jop_direct(rng, rng.choice(JOP_KINDS[1:])), "parent": 0})
+    doc = {"version": "live", "nodes": nodes, "edges": []}
+    r = rng.random()
+    if r < 0.6:
+        doc["metadata"] = [rng.choice(META) for _ in range(rng.choice([len(nodes), len(nodes), len(nodes) - 1, 1]))]
+    elif r < 0.8:
+        doc["metadata"] = None
+    if rng.random() < 0.7:
+        doc["encoder"] = rng.choice(["hugr-rs v0.15.0", None])
+    return T.shuffle_keys(rng, doc)
+
+
+def gen_jcalldoc(rng):
+    """A wired hand-written document: module, a declared (mostly polymorphic) function, `main` with Input / Output and
+    a Call and / or LoadFunction of the declared function -- value edges, the static edge from the declaration, order
+    edges written the hugr-rs way (no offsets)."""
+    kinds = rng.choice([["Call"], ["LoadFunction"], ["Call", "LoadFunction"], ["Call", "Call"]])
+    call = gen_jcall(rng, "Call")
+    sig, targs, inst = call["func_sig"], call["type_args"], call["instantiation"]
+    n_in, n_out = len(inst["input"]), len(inst["output"])
+    main_out = list(inst["output"]) + ([dict(inst)] if "LoadFunction" in kinds else [])
+    nodes = [{"parent": 0, "op": "Module"},
+             {"parent": 0, "op": "FuncDecl", "name": rng.choice(["phantom", "f", "é"]), "signature": _copy.deepcopy(sig)},
+             {"parent": 0, "op": "FuncDefn", "name": "main",
+              "signature": {"params": [], "body": _G(_copy.deepcopy(inst["input"]), _copy.deepcopy(main_out))}},
+             {"parent": 2, "op": "Input", "types": _copy.deepcopy(inst["input"])},
+             {"parent": 2, "op": "Output", "types": _copy.deepcopy(main_out)}]
+    edges = []
+    for kind in kinds:
+        n = len(nodes)
+        nodes.append(T.shuffle_keys(rng, {"parent": 2, "op": kind, "func_sig": _copy.deepcopy(sig),
+                                          "type_args": _copy.deepcopy(targs), "instantiation": _copy.deepcopy(inst)}))
+        if kind == "Call":
+            edges += [[[3, i], [n, i]] for i in range(n_in)] + [[[1, 0], [n, n_in]]] + [[[n, i], [4, i]] for i in range(n_out)]
+        else:
+            edges += [[[1, 0], [n, 0]], [[n, 0], [4, n_out]]]
+        r = rng.random()
+        if r < 0.4:
+            edges.append([[3, None], [n, None]])
+        elif r < 0.6:
+            edges.append([[n, None], [4, None]])
+    rng.shuffle(edges)
+    doc = {"version": "live", "nodes": [T.shuffle_keys(rng, x) for x in nodes], "edges": edges}
+    if rng.random() < 0.5:
+        doc["metadata"] = [rng.choice(META) for _ in nodes]
+    if rng.random() < 0.5:
+        doc["encoder"] = rng.choice(["hugr-rs v0.15.0", None])
+    return T.shuffle_keys(rng, doc)
+
+
+def gen_op_coinc(rng, d=1):
+    """An operation term (for the public constructors) whose attributes coincide: a polymorphic Call / LoadFunc whose
+    instantiation equals the body of its signature (type parameters that do not occur in it), equal input and output
+    rows, equal variants, an empty signature with arguments ..."""
+    row = T.gen_row(rng, d)
+    row2 = row if rng.random() < 0.7 else T.gen_row(rng, d)
+    reqs = T.gen_reqs(rng)
+    f = [row, row2, reqs]
+    r = rng.random()
+    if r < 0.5:
+        ps = [T.gen_param(rng, rng.choice([0, 1])) for _ in range(rng.choice([1, 1, 2]))]
+        args = [arg_for(rng, p, d) for p in ps]
+        return [rng.choice(["Call", "LoadFunc"]), [ps, f], [list(row), list(row2), list(reqs)], args]
+    k = rng.choice(["TailLoop", "DFG", "Conditional", "Case", "CFG", "FuncDefn", "DataflowBlock", "Custom", "Tag", "CallIndirect",
+                    "FuncDecl"])
+    if k == "TailLoop":
+        return ["TailLoop", row, row2, list(row), reqs]
+    if k == "DFG":
+        return ["DFG", row, row2, reqs]
+    if k == "Conditional":
+        return ["Conditional", ["Sum", [row, list(row)]], row, row2]
+    if k in ("Case", "CFG"):
+        return [k, row, row2]
+    if k == "FuncDefn":
+        return ["FuncDefn", "f", row, [T.gen_param(rng, 1) for _ in range(rng.choice([0, 1, 2]))], row2]
+    if k == "FuncDecl":
+        return ["FuncDecl", "f", [[T.gen_param(rng, 1) for _ in range(rng.choice([1, 2]))], f]]
+    if k == "DataflowBlock":
+        return ["DataflowBlock", row, ["Sum", [row, list(row)]], row2, reqs]
+    if k == "Custom":
+        return ["Custom", "op", f, "", "my.ext", [T.gen_arg(rng, d) for _ in range(rng.choice([1, 2]))]]
+    if k == "Tag":
+        return ["Tag", rng.choice([0, 1]), ["Sum", [row, list(row)]]]
+    return ["CallIndirect", f]
+
+
+def arg_for(rng, p, d=1):
+    """A type-argument term fitting the parameter term p."""
+    if rng.random() < 0.15:
+        return ["V", rng.choice([0, 1, 3]), p]
+    k = p[0]
+    if k == "Type":
+        return ["T", T.gen_ty(rng, d)]
+    if k == "Nat":
+        return ["N", rng.choice([0, 1, 5])]
+    if k == "String":
+        return ["S", rng.choice(T.NAMES)]
+    if k == "Exts":
+        return ["Exts", T.gen_reqs(rng)]
+    if k == "List":
+        return ["Seq", [arg_for(rng, p[1], d) for _ in range(rng.choice([0, 1, 2]))]]
+    return ["Seq", [arg_for(rng, q, d) for q in p[1]]]
+
+
+def requested_call_lit(o):
+    """For a Call / LoadFunc term with a polymorphic signature: the literal of the operation *as requested from the
+    constructor* (signature, instantiation, type arguments as passed); None for every other term.  On a polymorphic
+    signature the constructor keeps what it is given (model: CodecOps.call_attrs), so this is the literal of the
+    object it builds -- unless the constructor loses an attribute, which the case then shows."""
+    if o[0] not in ("Call", "LoadFunc") or not o[1][0] or o[2] is None or o[3] is None:
+        return None
+    return gapp("OCall" if o[0] == "Call" else "OLoadFunc", T.lit_poly_obj(T.build_poly(o[1])),
+                T.lit_func_obj(T.build_func(o[2])), glist(T.lit_arg_obj(T.build_arg(a)) for a in o[3]))
